@@ -21,6 +21,10 @@ CHECKS = {
    text="TLC explores spec/proto/ProtocolSM.tla: every protocol shape up to the bound x every API call in every reachable state, for four API models (C++ writer, C++ reader with single and batch reads, Python writer, Python reader), checking that the implementation-shaped state machines (generated state numbering) refine the abstract step-order requirement; one shortest call history per (state, call) is exported and performed on the real generated readers/writers (accept/raise per call, delivered counts); a 130-step protocol exercises the state counter width.",
    note="Shapes of length <=3 (quick) / <=4 (thorough), two items per stream. 'either' where the property is silent (fully delivered stream whose end was not observed; Python stream step never written). Sequences end at the first rejected call. MATLAB not executed.",
    tech="TLA+ state machine + TLC exhaustive exploration with VIEW; replay of exported call histories on generated code"),
+ "C16": dict(cat="model_checking", engine="tlc+generated-code-cuts",
+   text="spec/wire/CodedStream.tla models the buffered C++ input stream with a parametric buffer size (4 in TLC, 65536 in the code): TLC explores every plan of read operations (byte, 1-3 byte varints, fixed integers, byte runs longer than the buffer) x every cut position and checks NeverReadBeyondEnd / ValuesCorrect / CutImpliesError; the misbehaving (operation, position relative to the buffer boundary) classes it finds for the code as first found were reproduced on the real reader and repaired, and the current-code configuration holds. The binding feeds truncated spec-composed streams to the generated C++ and Python readers: probes of 7 element kinds aligned r = 0..len+1 bytes before the 64 KiB boundary cut at every byte, every byte position of small multi-type streams (binary and NDJSON), and cuts around every 64 KiB multiple and inside >64 KiB elements of a 700 KB stream. Each cut must raise, must not crash, and whatever was delivered before must equal what was written.",
+   note="Readers copy into an NDJSON writer in-process; delivered values are the complete lines written before the error, compared with the complete run. NDJSON cuts at a line boundary inside a trailing run of stream steps are well-formed shorter streams (no end marker in the format) and are not asserted. Sanitizer build only in the thorough tier.",
+   tech="TLA+ model of the buffered reader checked exhaustively by TLC (parametric buffer size) + fault enumeration of cut positions on the generated readers"),
  "C17": dict(cat="model_checking", engine="tlc-replay+generated-code",
    text="TLC explores spec/wire/StreamBlocks.tla: every partition of the written items into blocks x every sequence of single and batch reads (capacities 1..3) on the implementation-shaped reader (current_block_remaining, unobserved-completion state), checking NoReadPastTerminator/DeliveredIsPrefix/DoneMeansAll/MoreMeansProgress; completed behaviours are replayed on the generated C++ readers (binary and NDJSON) over streams whose consecutive items differ in map keys, optional presence, vector length, union case and array shape; whole-stream copies cover every partition x CopyTo capacity (C++) and list/generator/per-item writes (Python).",
    note="4 items per stream, capacities <=3 (<=4 for CopyTo); quick replays a seeded sample of the TLC behaviours per package, thorough all. Values compared as JSON trees / admissible byte sets from the wire spec.",
